@@ -9,6 +9,12 @@ var props = map[string]propMeta{
 	"C02": {Level: "exploration", Builds: []build{bPlain},
 		Rule:        "every length structure (attribute-length sequences over a body bound x declared length x buffer length), every tiny-alphabet body x declared length, the large family and all 65536 type words, each decoded by Message.Decode and by an independent RFC 5389 parser and compared field by field, then Get/Contains/ForEach checked on every type present and one absent; distinct = distinct input byte strings (64-bit hash set, capped at 3M per shard)",
 		Assumptions: []string{goAssume, "value byte content is drawn from fixed fillers; the length/offset structure is what is enumerated exhaustively"}},
+	"C06": {Level: "exploration", Builds: []build{bPlain},
+		Rule: "all ports 0..65535 x {IPv4, IPv6, IPv4-mapped} x 5 transaction IDs for the XOR family (4 attribute types incl. AddToAs) and the 4 MAPPED-ADDRESS-shaped attributes; address and transaction-ID bytes one position at a time x 256 values; every text length 0..limit for USERNAME/REALM/NONCE/SOFTWARE; ERROR-CODE 300..699 x 8 reason lengths; every 16-bit type as a singleton UNKNOWN-ATTRIBUTES list and lists of 0..64 entries; each checked four ways (AddTo->Decode->GetFrom, bytes == reference RFC encoder, GetFrom on reference-encoded message, reference decoder on library bytes); cases are distinct by construction (counted)",
+		Assumptions: []string{goAssume, "text limits are the ones the library documents (513/763)", "XOR is bytewise, so one-position-at-a-time is complete for per-byte behaviour; the 2^128 product is not enumerated"}},
+	"C07": {Level: "exploration", Builds: []build{bPlain, bDebug},
+		Rule: "14 getters/checkers x value length 0..40 x 4 content classes (family 1 / family 2 / other / high byte) x position {only, first, middle, last} x capacity slack {0,1,2,3,4,8,64} x 4 surroundings fillers (padding, neighbours, spare capacity); messages decoded from exact allocations; oracle: no panic, twin rule (same value bytes => same outcome and value for every surrounding), Raw/Length/Attributes identical before and after; for integrity/fingerprint the covered prefix is held fixed and only what follows varies; variants distinct by construction (counted)",
+		Assumptions: []string{goAssume, "value content beyond the first two bytes is one fixed pattern; the length/position/capacity structure is enumerated exhaustively"}},
 	"C16": {Level: "exploration", Builds: []build{bPlain},
 		Rule: "every string over the 20-symbol alphabet up to the length bound after each of 7 prefixes (stun: stuns: turn: turns: none STUN: stun://) plus a deterministic long family (1e5 repetitions of each symbol, nested brackets, long ports/queries); each parsed in a child process with a 16 MB stack cap and an 8 s per-string hang watchdog, crashing batches bisected to one string; distinct = number of distinct enumeration indices parsed (index -> string is a bijection)",
 		Assumptions: []string{goAssume, "a fatal stack overflow at 16 MB stands for unbounded recursion; time bound = 8 s per string"}},
